@@ -297,6 +297,22 @@ def op_fph_round_trip(H, fmt, v):
     exp = {'sp': 0x7FFFFFFF, 'dp': 0x7FF7FFFFFFFFFFFF}[fmt] if is_nan_pattern(fmt, v) else v
     return guarded(lambda: enc(dec(v))), exp
 
+def op_fp_to_parts(H, xh):
+    """fp_to_parts(x) = (sign, floor(log2|x|), |x| / 2^e) with 1 <= m < 2, exactly (zero: (0, 0, 0))"""
+    x = float.fromhex(xh)
+    def run():
+        s, e, m = H.FloatingPointHelper.fp_to_parts(x)
+        return [s, e, (m + 0.0).hex()]
+    if x == 0: return guarded(run), [0, 0, (0.0).hex()]
+    mant, ex = math.frexp(abs(x))
+    return guarded(run), [1 if x < 0 else 0, ex - 1, (mant * 2).hex()]
+
+def op_sp_to_fixed_point_parts(H, xh):
+    x = float.fromhex(xh)
+    if x == 0: return guarded(lambda: list(H.FloatingPointHelper.sp_to_fixed_point_parts(x))), [0, 0, 0]
+    mant, ex = math.frexp(abs(x))
+    return guarded(lambda: list(H.FloatingPointHelper.sp_to_fixed_point_parts(x))), [1 if x < 0 else 0, ex - 1, round(Fraction(mant) * (1 << 24))]
+
 def op_fph_stored(H, xh):
     x = float.fromhex(xh)
     return guarded(lambda: xfloat(H.FloatingPointHelper.ieee754_stored_internally(x))), xfloat(bits_to_float('sp', float_to_bits('sp', x)))
